@@ -16,28 +16,29 @@
 (* A message is a bit string (bytes, nbits): bit i (0-based) is bit 7-(i%8)   *)
 (* of byte i div 8; bits of the last byte beyond nbits do not belong to it.   *)
 EXTENDS Integers, Sequences, Bitwise
+LOCAL INSTANCE SequencesExt
 Z == INSTANCE ZUC
 
 Bit(bytes, i) == (bytes[(i \div 8) + 1] \div Z!P2(7 - (i % 8))) % 2
 
 (* the keystream as 16-bit pieces: piece k (1-based) holds keystream bits 16(k-1) .. 16k-1 *)
-Halves(ws) == [k \in 1..(2 * Len(ws)) |-> ws[(k + 1) \div 2][2 - (k % 2)]]
+(* (SubSeq(f, 1, n) turns TLC's lazy function value into a concrete tuple, so that it is evaluated once) *)
+Halves(ws) == SubSeq([k \in 1..(2 * Len(ws)) |-> ws[(k + 1) \div 2][2 - (k % 2)]], 1, 2 * Len(ws))
 (* the t-bit window of the keystream starting at bit j (0-based), as t/16 pieces *)
 Win(hs, j, t) ==
   LET r == j % 16
       q == j \div 16
-  IN  [m \in 1..(t \div 16) |->
-         IF r = 0 THEN hs[q + m]
-         ELSE ((hs[q + m] * Z!P2(r)) % 65536) + (hs[q + m + 1] \div Z!P2(16 - r))]
-XorH(a, b) == [m \in 1..Len(a) |-> a[m] ^^ b[m]]
-HBytes(h) == [i \in 1..(2 * Len(h)) |-> IF i % 2 = 1 THEN h[(i + 1) \div 2] \div 256 ELSE h[(i + 1) \div 2] % 256]
+  IN  SubSeq([m \in 1..(t \div 16) |->
+                IF r = 0 THEN hs[q + m]
+                ELSE ((hs[q + m] * Z!P2(r)) % 65536) + (hs[q + m + 1] \div Z!P2(16 - r))], 1, t \div 16)
+XorH(a, b) == SubSeq([m \in 1..Len(a) |-> a[m] ^^ b[m]], 1, Len(a))
+HBytes(h) == SubSeq([i \in 1..(2 * Len(h)) |-> IF i % 2 = 1 THEN h[(i + 1) \div 2] \div 256 ELSE h[(i + 1) \div 2] % 256], 1, 2 * Len(h))
 
-(* XOR of the windows at bit (shift + i) over the set bits i in from..nbits-1 of msg, folded into acc *)
-RECURSIVE FoldBits(_, _, _, _, _, _, _)
-FoldBits(hs, msg, i, nbits, t, shift, acc) ==
-  IF i >= nbits THEN acc
-  ELSE FoldBits(hs, msg, i + 1, nbits, t, shift,
-                IF Bit(msg, i) = 1 THEN XorH(acc, Win(hs, shift + i, t)) ELSE acc)
+(* XOR of the windows at bit (shift + i) over the set bits i < nbits of msg, folded into base.  (FoldLeft *)
+(* of SequencesExt is evaluated iteratively by TLC; i runs through 0..nbits-1.)                          *)
+FoldBits(hs, msg, nbits, t, shift, base) ==
+  FoldLeft(LAMBDA acc, k : IF Bit(msg, k - 1) = 1 THEN XorH(acc, Win(hs, shift + k - 1, t)) ELSE acc,
+           base, [k \in 1..nbits |-> k])
 
 Eia3Words(nbits) == ((nbits + 31) \div 32) + 2
 Mac256Words(nbits, t) == ((nbits + 31) \div 32) + (2 * (t \div 32))
@@ -46,7 +47,7 @@ Mac256Words(nbits, t) == ((nbits + 31) \div 32) + (2 * (t \div 32))
 Eia3OnKS(ws, msg, nbits) ==
   LET hs == Halves(ws)
       L  == Eia3Words(nbits)
-      t1 == FoldBits(hs, msg, 0, nbits, 32, 0, <<0, 0>>)
+      t1 == FoldBits(hs, msg, nbits, 32, 0, <<0, 0>>)
       t2 == XorH(t1, Win(hs, nbits, 32))
   IN  HBytes(XorH(t2, Win(hs, 32 * (L - 1), 32)))
 
@@ -54,13 +55,42 @@ Eia3OnKS(ws, msg, nbits) ==
 Mac256OnKS(ws, msg, nbits, t) ==
   LET hs == Halves(ws)
       t0 == Win(hs, 0, t)
-      t1 == FoldBits(hs, msg, 0, nbits, t, t, t0)
+      t1 == FoldBits(hs, msg, nbits, t, t, t0)
   IN  HBytes(XorH(t1, Win(hs, t + nbits, t)))
 
 (* from key and IV *)
 Eia3(key, iv, msg, nbits) == Eia3OnKS(Z!Keystream128(key, iv, Eia3Words(nbits)), msg, nbits)
 Mac256(key, iv, tagBytes, msg, nbits) ==
   Mac256OnKS(Z!Keystream256Mac(key, iv, tagBytes, Mac256Words(nbits, 8 * tagBytes)), msg, nbits, 8 * tagBytes)
+
+(* ------------------------------------------------------------------------ *)
+(* NOT part of the standard: a model of known defect D8 of the pinned tree     *)
+(* (internal/zuc/eia256.go, ZUC256Mac.checkSum), used only to classify a       *)
+(* mismatch as that defect.  For 64/128-bit tags the loop over the whole       *)
+(* 32-bit words of the final partial block shifts the key window in place into *)
+(* k0[0..tw-1], but the code for the last 1..32 bits (and the final XOR) reads *)
+(* the window at k0[kIdx..kIdx+tw], kIdx = number of whole words processed.    *)
+(* With old[j] the keystream word j of the tail (old[0] = z word tw + 4*blocks) *)
+(* the array it reads is A[j] = old[kIdx + j] for j < tw, old[j] otherwise.    *)
+(* The value equals the standard's whenever the bit length modulo 128 is <= 32 *)
+(* (kIdx = 0) or the tag has 32 bits.                                          *)
+(* ------------------------------------------------------------------------ *)
+Mac256D8OnKS(ws, msg, nbits, t) ==
+  LET tw   == t \div 32
+      nb   == nbits \div 128
+      r128 == nbits % 128
+      kIdx == ((r128 + 31) \div 32) - 1
+  IN  IF r128 <= 32 THEN Mac256OnKS(ws, msg, nbits, t)
+      ELSE LET base == tw + (4 * nb)
+               A(j) == IF j < tw THEN ws[base + kIdx + j + 1] ELSE ws[base + j + 1]
+               ap   == SubSeq([j \in 1..(8 - kIdx) |-> A(kIdx + j - 1)], 1, 8 - kIdx)
+               hs   == Halves(ws)
+               ha   == Halves(ap)
+               head == (128 * nb) + (32 * kIdx)
+               t1   == FoldBits(hs, msg, head, t, t, Win(hs, 0, t))
+               t2   == FoldLeft(LAMBDA acc, k : IF Bit(msg, head + k - 1) = 1 THEN XorH(acc, Win(ha, k - 1, t)) ELSE acc,
+                                t1, [k \in 1..(nbits - head) |-> k])
+           IN  HBytes(XorH(t2, Win(ha, nbits - head, t)))
 
 (* ------------------------------------------------------------------------ *)
 (* 3GPP parameter blocks.  count: 4 bytes (big-endian COUNT), bearer 0..31,   *)
@@ -76,7 +106,7 @@ Eea3IV(count, bearer, direction) ==
   IN  h \o h
 Eia3IV(count, bearer, direction) ==
   LET h == count \o <<bearer * 8, 0, 0, 0>>
-  IN  [i \in 1..16 |-> IF i <= 8 THEN h[i]
-                       ELSE IF i = 9 \/ i = 15 THEN h[i - 8] ^^ (direction * 128)
-                       ELSE h[i - 8]]
+  IN  SubSeq([i \in 1..16 |-> IF i <= 8 THEN h[i]
+                              ELSE IF i = 9 \/ i = 15 THEN h[i - 8] ^^ (direction * 128)
+                              ELSE h[i - 8]], 1, 16)
 =============================================================================
